@@ -202,6 +202,11 @@ def run_parsers(chk: core.Check, ids):
         views = {"jagged": a, "sliced[1:]": a[1:], "reversed[::-1]": a[::-1], "int64": jag(vals, "int64")}
         if len(a) >= 2:
             views["selected[[True,False,...]]"] = a[np.arange(len(a)) % 2 == 0]
+        # missing digis inside the events, missing whole events, one more level of nesting
+        keep = ak.unflatten(ak.Array((np.arange(len(vals)) % 3 != 1)), ak.num(a))
+        views["missing digis (ak.mask)"] = ak.mask(a, keep)
+        views["missing events"] = ak.mask(a, np.arange(len(a)) % 2 == 0)
+        views["depth3"] = ak.unflatten(a, [1, len(a) - 1] if len(a) >= 2 else [len(a)])
         for vlabel, v in views.items():
             for flat, lib in itertools.product([False, True], ["ak", "np"]):
                 try:
@@ -264,6 +269,13 @@ def main(chk: core.Check) -> int:
         ids = run_functions(chk, thorough)
         if ids is not None:
             run_parsers(chk, ids)
+        if not chk.failing:
+            # dtype independence along a call history (private numba cache, child process): kernels first compiled for int64, a geometry table
+            # handed out and edited by the caller, then the same lookups with dtypes that need a NEW compiled loop (uint64) - every dtype must
+            # still return the published values
+            from checks import c09
+            c09.histories(chk, what="geometry lookup with an index dtype whose kernel is compiled after the caller edited a table it was handed",
+                          clause="every geometry function returns the same values whatever the integer dtype of its input (the loop compiled for a new dtype must see the same tables)")
         chk.coverage["traces_validated_against_impl"] = len(chk.distinct)
     except Exception as ex:
         import traceback
